@@ -390,6 +390,22 @@ func (in *Interp) Run(st State) (tr *Trace) {
 			case c.Name == "return" && len(c.Args) == 0:
 				tr.Term = "return"
 				return
+			case (c.Name == "goto_if_set" || c.Name == "goto_if_unset") && len(c.Args) == 2:
+				// author-written conditional jump: the game's semantics
+				fl := strings.Join(c.Args[0].Toks, " ")
+				l := strings.Join(c.Args[1].Toks, " ")
+				v := r.st.Flag(r.epoch, fl)
+				tr.Events = append(tr.Events, Event{K: 'q', Name: "flag", Text: fl})
+				if v == (c.Name == "goto_if_set") {
+					if t, ok := in.labels[l]; ok {
+						p = pos{t.f, t.i + 1}
+					} else {
+						tr.Term = "jump-out(" + l + ")"
+						return
+					}
+				} else {
+					p.i++
+				}
 			case c.Name == "goto" && len(c.Args) == 1:
 				l := strings.Join(c.Args[0].Toks, " ")
 				if t, ok := in.labels[l]; ok {
